@@ -88,11 +88,14 @@ pub struct PropReport {
     pub extra: Value,
     /// additional traces validated against the implementation (e.g. real-rayon runs)
     pub extra_traces: u64,
+    /// Some(label): this run is an additional configuration (e.g. the `std` float back end);
+    /// its summary is merged into the existing evidence file instead of replacing it
+    pub secondary: Option<String>,
 }
 
 impl PropReport {
     pub fn new(id: &str, tier: Tier, seed: i64) -> PropReport {
-        PropReport { id: id.into(), tier, seed, rule: String::new(), assumptions: vec![], specs: vec![], extra: json!({}), extra_traces: 0 }
+        PropReport { id: id.into(), tier, seed, rule: String::new(), assumptions: vec![], specs: vec![], extra: json!({}), extra_traces: 0, secondary: None }
     }
 
     /// Writes replays + evidence, prints the verdict lines, returns the exit code.
@@ -137,7 +140,11 @@ impl PropReport {
                 println!("  {}", f.detail);
             }
         }
-        self.write_evidence(wall_s, new_violations + known_hits);
+        if let Some(label) = &self.secondary {
+            self.merge_secondary(label, wall_s, new_violations + known_hits);
+        } else {
+            self.write_evidence(wall_s, new_violations + known_hits);
+        }
         let states: u64 = self.specs.iter().map(|s| s.states).sum();
         let transitions: u64 = self.specs.iter().map(|s| s.transitions).sum();
         println!(
@@ -156,6 +163,33 @@ impl PropReport {
         } else {
             0
         }
+    }
+
+    fn merge_secondary(&self, label: &str, wall_s: f64, violations: u64) {
+        let p = PathBuf::from(VERIF).join("evidence").join(format!("{}.json", self.id));
+        let mut ev: Value = std::fs::read_to_string(&p).ok().and_then(|t| serde_json::from_str(&t).ok()).unwrap_or(json!({}));
+        let states: u64 = self.specs.iter().map(|s| s.states).sum();
+        let transitions: u64 = self.specs.iter().map(|s| s.transitions).sum();
+        let summary = json!({
+            "configuration": label,
+            "states": states,
+            "transitions": transitions,
+            "specs": self.specs.len(),
+            "exhaustive": self.specs.iter().all(|s| s.capped.is_none()),
+            "violations": violations,
+            "wall_s": (wall_s * 1000.0).round() / 1000.0,
+            "worst_error_over_envelope": self.extra,
+        });
+        if let Some(cov) = ev.get_mut("coverage").and_then(|c| c.as_object_mut()) {
+            cov.insert(format!("additional_configuration_{label}"), summary);
+        }
+        if let Some(v) = ev.get("violations").and_then(|v| v.as_u64()) {
+            ev["violations"] = json!(v + violations);
+        }
+        if let Some(w) = ev.get("wall_s").and_then(|v| v.as_f64()) {
+            ev["wall_s"] = json!(((w + wall_s) * 1000.0).round() / 1000.0);
+        }
+        let _ = std::fs::write(&p, serde_json::to_string_pretty(&ev).unwrap());
     }
 
     fn write_evidence(&self, wall_s: f64, violations: u64) {
